@@ -166,6 +166,7 @@ def step (st0 : St) (ws : List String) : St × String :=
     (st, s!"allocs={n} " ++ match k with | some k => "key " ++ hx k | none => if n == 0 then "ENOENT" else "ENOMEM")
   | ["clear"] => let t := st.tbl.clear; ({ st0 with tbl := t }, "ok " ++ stateStr t)
   | ["cursor0"] => ({ st0 with cur := {} }, "ok")
+  | ["errno", _] => (st0, "ok")        -- the caller's errno: the model has none, no result depends on it
   | ["next"] =>
     match st.tbl.getnextF ie plan st.cur with
     | .ok (t, .done, n) => ({ st with tbl := t }, s!"allocs={n} done " ++ stateStr t)
